@@ -119,6 +119,26 @@ impl TokenLog for BloomTokenLog {
     }
 }
 
+#[cfg(feature = "quinn_rs_quinn_verif")]
+impl BloomTokenLog {
+    /// verification hook: (period_1_start, filter_1, filter_2); a filter is `Some(sorted contents)`
+    /// while it is a hash set and `None` once it is a bloom filter
+    pub(crate) fn verif_state(&self) -> (SystemTime, Option<Vec<u64>>, Option<Vec<u64>>) {
+        fn f(x: &Filter) -> Option<Vec<u64>> {
+            match x {
+                Filter::Set(h) => {
+                    let mut v: Vec<u64> = h.iter().copied().collect();
+                    v.sort_unstable();
+                    Some(v)
+                }
+                Filter::Bloom(_) => None,
+            }
+        }
+        let s = self.0.lock().unwrap();
+        (s.period_1_start, f(&s.filter_1), f(&s.filter_2))
+    }
+}
+
 /// Default to 20 MiB max memory consumption and expected one million hits
 ///
 /// With the default validation token lifetime of 2 weeks, this corresponds to one token usage per
